@@ -91,8 +91,12 @@ NextState(s, a) ==
                position |-> NextPos(s, a)]]
 
 (* ---------- reward (in hundredths), termination, discount ---------- *)
-Reward100(s, t, i) == (IF ~Connected(s, i) /\ Connected(t, i) THEN 100 ELSE 0)
-                      + (IF ~Connected(s, i) THEN -3 ELSE 0)
+(* DenseRewardFn(connected_reward, timestep_reward): the documented defaults are 1.0 and -0.03; a configuration may
+   request other values (Cfg.connected_reward100 / Cfg.timestep_reward100, in hundredths) *)
+ConnReward100 == IF "connected_reward100" \in DOMAIN Cfg THEN Cfg.connected_reward100 ELSE 100
+StepReward100 == IF "timestep_reward100" \in DOMAIN Cfg THEN Cfg.timestep_reward100 ELSE -3
+Reward100(s, t, i) == (IF ~Connected(s, i) /\ Connected(t, i) THEN ConnReward100 ELSE 0)
+                      + (IF ~Connected(s, i) THEN StepReward100 ELSE 0)
 Blocked(s, i) == \A m \in 1..4 : ~LegalAg(s, i, m)
 DoneAg(s, i)  == Connected(s, i) \/ Blocked(s, i)
 AllDone(s)    == \A i \in Agents : DoneAg(s, i)
